@@ -131,7 +131,8 @@ def _norm(fn):
     fn = inline_pure_aliases(fn)
     for node in ast.walk(fn):
         for ch in ast.iter_child_nodes(node):
-            ch._parent = node
+            if not isinstance(ch, (ast.expr_context, ast.operator, ast.cmpop, ast.boolop, ast.unaryop)):
+                ch._parent = node
     return fn
 
 
